@@ -19,6 +19,14 @@ def tensor_pre(ctx, binary):
 
 
 def fft_pre(ctx, binary):
+    # design level: the index logic and packing identities over an exact field, in every plan state
+    mc = ctx.cfg("fft", "MC_Fft.cfg", {"MaxLen": ctx.q("9", "17")})
+    ctx.mc("fft", "MC_Fft", mc, stage="mc", workers=4, timeout=ctx.q(900, 5000), coverage=False)
+    neg = ctx.cfg("fft", "MC_Fft.cfg", {"MaxLen": "5", "SharedByStride": "FALSE"}, name="MC_Fft_neg.cfg")
+    r = ctx.tlc("fft", "MC_Fft", neg, "mc-neg-stride", workers=4, timeout=600, allow_fail=True, coverage=False)
+    if r["ok"] or "Invariant Refines is violated" not in r["out"]:
+        raise vlib.ToolError("negative test: TLC did not reject the model that ignores the stride of the shared twiddle table")
+    ctx.stages.append({"stage": "mc-neg-stride", "kind": "negative test: defective design rejected by TLC", "wall_s": r["wall_s"]})
     g = ctx.cfg("fft", "FftGen.cfg", {"Depth": ctx.q("2", "3")})
     cases, n = ctx.gen("fft", "FftGen", g, "cases.ndjson", stage="gen", workers=8, timeout=ctx.q(900, 5000), coverage=False)
     v = ctx.replay(binary, "fft", cases)
@@ -168,7 +176,10 @@ SPECS = {
         "module": "FftTrace",
         "pre": fft_pre,
         "release": True,
-        "rule": ("S->I: TLC enumerates all call histories of <= 2 (thorough 3) calls (multiply, multiply_into on a non-zero destination, "
+        "rule": ("MC: FftImpl (B) -- plan growth by doubling, stride-shared twiddle table, shifted bit reversal, forward/inverse butterflies, "
+                 "the packing of two real inputs and the half-size inverse, transcribed over the exact field GF(8191^2) -- refines the "
+                 "convolution spec in every reachable plan state for all length pairs up to 9 (thorough 17); a model that ignores the "
+                 "stride is rejected. S->I: TLC enumerates all call histories of <= 2 (thorough 3) calls (multiply, multiply_into on a non-zero destination, "
                  "fft + pointwise product + fft_inv) over length pairs realising every transform size 2..32 in every grow/shrink order, and "
                  "every length pair 1..17 x 1..17 as a call after a large one, with the integer convolutions the specification demands; "
                  "replayed on ONE reused FFT<f64> and FFT<f32> object per history and on fresh objects (release and debug builds). "
